@@ -7,7 +7,7 @@ import json, os, subprocess, sys, re, time, glob
 V = '/verif'
 import os as _os
 VD = _os.environ.get('VDIR', V)   # verif tree whose engine/harness is run (a snapshot worktree lets work in /verif go on)
-RD = _os.environ.get('RDIR', RD)  # repository tree the patch is applied to (a scratch worktree leaves /repo alone)
+RD = _os.environ.get('RDIR', '/repo')  # repository tree the patch is applied to (a scratch worktree leaves /repo alone)
 only = sys.argv[1:]
 for d in sorted(glob.glob(V + '/seeded/C*-*')):
     sid = os.path.basename(d)
